@@ -132,7 +132,9 @@ class FileWriteable(FileReadable, metaclass=ABCMeta):
 
     def file_write(self) -> None:
         file_path = self.get_file(self.path)
-        with NamedTemporaryFile('w', delete=False) as tmp:
+        file_dir, file_name = os.path.split(file_path)
+        with NamedTemporaryFile('w', delete=False, dir=file_dir or None,
+                                prefix=file_name + '.') as tmp:
             self.write(tmp)
         os.rename(tmp.name, file_path)
         self._touched = False
